@@ -16,6 +16,7 @@ import GaleneVerif.Engine.Locks
 import GaleneVerif.Engine.Api
 import GaleneVerif.Engine.Rec
 import GaleneVerif.Engine.Streams
+import GaleneVerif.Engine.Sig
 /-
 Line-protocol driver.  usage: driver <engine> [oracle-only] < trace
 `oracle-only` (failing-input search): model/impl mismatches do not end the case;
@@ -97,7 +98,9 @@ def engines : List (String × EngineDef) :=
     ("locks", Galene.Engine.Locks.engine),
     ("api", Galene.Engine.Api.engine),
     ("rec", Galene.Engine.Rec.engine),
-    ("streams", Galene.Engine.Streams.engine) ]
+    ("streams", Galene.Engine.Streams.engine),
+    ("sig", Galene.Engine.Sig.engine),
+    ("sigfixed", Galene.Engine.Sig.engineFixed) ]
 
 def main (args : List String) : IO UInt32 := do
   let (name?, oracleOnly) := match args with
